@@ -30,6 +30,13 @@ def _pid(spec, prefix, fallback):
     return f"{prefix}{spec['n']}" if "n" in spec else f"{prefix}:{fallback}"
 
 
+def cond_option(p):
+    """'eqopt:KEY' / 'eqopt!:KEY' (no default) -> the option the condition reads."""
+    required = p.startswith("eqopt!:")
+    key = p.split(":", 1)[1]
+    return {"k": "opt", "key": key} if required else {"k": "opt", "key": key, "dk": "const", "dv": "<no-such-value>"}
+
+
 class Ref:
     def __init__(self, program, faults=None):
         self.program = program
@@ -190,8 +197,15 @@ class Ref:
     def _case(self, s, o):
         d = self.eval(s["disp"], o)
         for i, (p, res) in enumerate(s["cases"]):
-            self._hit("pred", f"cp{s['n']}.{i}" if "n" in s else f"cp:{p}")
-            if pred(p)(d):
+            if isinstance(p, str) and p.startswith("eqopt"):
+                # the condition is an expression: "equals the value of option K" (evaluated under the same options)
+                t = self.eval(cond_option(p), o)
+                self._hit("pred", f"cp{s['n']}.{i}" if "n" in s else f"cp:{p}")
+                matched = canon(d) == canon(t)
+            else:
+                self._hit("pred", f"cp{s['n']}.{i}" if "n" in s else f"cp:{p}")
+                matched = pred(p)(d)
+            if matched:
                 self.unselected.extend(r2 for j, (_, r2) in enumerate(s["cases"]) if j != i)
                 if s.get("default") is not None:
                     self.unselected.append(s["default"])
@@ -407,7 +421,9 @@ class Ref:
             sub(spec.get("default"))
         elif k == "case":
             sub(spec["disp"])
-            for _, b in spec["cases"]:
+            for p_, b in spec["cases"]:
+                if isinstance(p_, str) and p_.startswith("eqopt"):
+                    sub(cond_option(p_))  # a condition that is itself an expression over the options
                 sub(b)
             sub(spec.get("default"))
         elif k == "coalesce":
